@@ -366,9 +366,9 @@ func build(tier string) *enum {
 			}
 			// hundreds of cells (a batch size of 64 ... 1024 cells must not leave the remainder out): not a multiple of any power of two above 8
 			if gi == 0 || tier == "thorough" {
-				many := []int{600, 1300}
+				many := []int{512, 600, 1025, 1300} // a multiple of 256 / 512, and counts no batch size up to 1024 divides
 				if tier == "thorough" {
-					many = []int{70, 130, 257, 600, 1300}
+					many = []int{70, 130, 256, 257, 512, 600, 1024, 1025, 1300, 2051}
 				}
 				for _, N := range many {
 					for _, P := range []int{1, N} {
@@ -409,7 +409,7 @@ func (e *enum) CrashSig(i int64, tail string) (string, string) {
 func Spec() *vf.Check {
 	return &vf.Check{
 		ID: "C04", Level: "exploration", BlockSize: 16,
-		Rule: "all 41 catalogued models x parameter-vector groups x cells N in 1..4 x parameter sets P and input blocks B in {1, N, the value coprime with N below N} (plus N in {5,8,9,13} with P in {1,N}, B in {1,4,N}; plus N in {600,1300} (thorough: 70,130,257,600,1300) with P in {1,N}, B=7, T=2; plus (N, GOMAXPROCS) in {(3,2),(4,3),(5,2),(5,3),(9,4),(9,8),(13,2)}) x T in {1,3,(6)} x outputs exact or one larger in every dimension x Go- or C-backed arrays (with canaries) x states from InitialiseStates(N) or caller-filled (warmed-up, distinct rows); per-cell table lengths differ for Storage and RatingCurvePartition; " +
+		Rule: "all 41 catalogued models x parameter-vector groups x cells N in 1..4 x parameter sets P and input blocks B in {1, N, the value coprime with N below N} (plus N in {5,8,9,13} with P in {1,N}, B in {1,4,N}; plus N in {512,600,1025,1300} (thorough: 70,130,256,257,512,600,1024,1025,1300,2051) with P in {1,N}, B=7, T=2; plus (N, GOMAXPROCS) in {(3,2),(4,3),(5,2),(5,3),(9,4),(9,8),(13,2)}) x T in {1,3,(6)} x outputs exact or one larger in every dimension x Go- or C-backed arrays (with canaries) x states from InitialiseStates(N) or caller-filled (warmed-up, distinct rows); per-cell table lengths differ for Storage and RatingCurvePartition; " +
 			"each cell of the vectorised run is compared bit-for-bit with a fresh single-cell run of its parameter column (i mod P), input block (i mod B) and state row; inputs/parameters unchanged; slack and canaries untouched. distinct_nontrivial = configurations with a non-zero output.",
 		Assumptions: []string{"a write that stores the value already present in inputs/parameters is not observable here (no access log)", "GR4J/Lag parameter sets mixing unit-hydrograph / lag lengths are enumerated separately (rectangular state array)"},
 		Build:       func(tier string) vf.Enumeration { return build(tier) },
